@@ -79,6 +79,10 @@ pub fn rich_doc(kind: &str, s: &str, km: &KeyMap) -> MetadataWrapper {
                 in_dst: Some("out".to_string()),
                 from: format!("s1{s}"),
             })
+            // the other three MATCH shapes (destination prefix only, source prefix only, neither)
+            .add_expected_material(ArtifactRule::Match { pattern: "b.out".into(), in_src: None, with: Artifact::Products, in_dst: Some("out".to_string()), from: format!("s1{s}") })
+            .add_expected_material(ArtifactRule::Match { pattern: "c.out".into(), in_src: Some("in".to_string()), with: Artifact::Materials, in_dst: None, from: format!("s1{s}") })
+            .add_expected_material(ArtifactRule::Match { pattern: "d.out".into(), in_src: None, with: Artifact::Products, in_dst: None, from: format!("s1{s}") })
             .add_expected_product(ArtifactRule::Modify("x".into()));
         let i1 = Inspection::new("i1")
             .run(Command::from(vec!["sh".to_string(), "-c".to_string(), format!("true {s}")]))
@@ -407,6 +411,20 @@ pub fn edit_signed(signed: &mut Value, field: &str, scn: &Value, rng: &mut impl 
         }
         "match_with" if !is_link => {
             signed["steps"][1]["expected_materials"][0][5] = json!("MATERIALS");
+            true
+        }
+        // MATERIALS <-> PRODUCTS in each of the other MATCH shapes
+        "match_with_dstonly" | "match_with_srconly" | "match_with_bare" if !is_link => {
+            let idx = match field { "match_with_dstonly" => 1, "match_with_srconly" => 2, _ => 3 };
+            let r = match signed["steps"][1]["expected_materials"][idx].as_array_mut() {
+                Some(r) => r,
+                None => return false,
+            };
+            let w = match r.iter().position(|t| t == "WITH") {
+                Some(w) if w + 1 < r.len() => w,
+                _ => return false,
+            };
+            r[w + 1] = json!(if r[w + 1] == "PRODUCTS" { "MATERIALS" } else { "PRODUCTS" });
             true
         }
         "match_from" if !is_link => {
